@@ -2341,9 +2341,8 @@ class Scene:
             # Get current state
             v0, w0, p0, q0 = self._airplanes[aircraft_name].get_state()
 
-            # Transform velocity to body-fixed
-            v_wind = self._get_wind(p0)
-            v_body = quat_trans(q0, v0-v_wind)
+            # Transform velocity to body-fixed (set_state takes the body-fixed components of the Earth-fixed velocity)
+            v_body = quat_trans(q0, v0)
 
             # Parse original state
             orig_state = {
@@ -2737,7 +2736,7 @@ class Scene:
         controls_original = copy.copy(airplane_object.current_control_state)
 
         # In case we're already trimmed, parse the original state as the solution
-        v = quat_trans(q_orig, v_orig-v_wind)
+        v = quat_trans(q_orig, v_orig)
         curr_state = {
             "position" : list(p_orig),
             "velocity" : list(v),
@@ -2810,7 +2809,7 @@ class Scene:
             # Perturb forward
             E_fwd = [phi, theta0+dtheta, psi]
             q_fwd = euler_to_quat(E_fwd)
-            v_fwd = quat_trans(q_fwd, v_orig-v_wind)
+            v_fwd = quat_trans(q_fwd, v_orig)
             fwd_state = {
                 "position" : p_orig,
                 "velocity" : v_fwd,
@@ -2824,7 +2823,7 @@ class Scene:
             # Perturb backward
             E_bwd = [phi, theta0-dtheta, psi]
             q_bwd = euler_to_quat(E_bwd)
-            v_bwd = quat_trans(q_bwd, v_orig-v_wind)
+            v_bwd = quat_trans(q_bwd, v_orig)
             bwd_state = {
                 "position" : p_orig,
                 "velocity" : v_bwd,
@@ -2856,7 +2855,7 @@ class Scene:
             # Update state
             E = [phi, theta0, psi]
             q = euler_to_quat(E)
-            v = quat_trans(q, v_orig-v_wind)
+            v = quat_trans(q, v_orig)
             curr_state = {
                 "position" : list(p_orig),
                 "velocity" : list(v),
@@ -2886,7 +2885,7 @@ class Scene:
         if not set_trim_state:
             orig_state = {
                 "position" : p_orig,
-                "velocity" : quat_trans(q_orig, v_orig-v_wind),
+                "velocity" : quat_trans(q_orig, v_orig),
                 "orientation" : q_orig,
                 "angular_rates" : w_orig
             }
